@@ -107,9 +107,22 @@ def do_check(pid, tier):
                                     "broken_obligations": proof_problems})
         lines.append("VIOLATION property=%s replay=%s" % (pid, path))
         rc = 1
+    elif ctx.state_divergences and not (proof_problems or ctx.unavailable):
+        d = ctx.state_divergences[0]
+        path = C.write_replay(pid, {"property": pid, "kind": "state-divergence",
+                                    "reason": "the correspondence 'abstraction of the real object graph = state of the model' "
+                                              "(harness/absstate.py against the driver's state line) no longer checks, and no "
+                                              "history was found on which rejections, arms, outputs or sampler requests differ: "
+                                              + d["reason"],
+                                    "scenario": d["scenario"], "detail": {"k1": d.get("k1")},
+                                    "broken_correspondence": "state abstraction (harness/absstate.py) = model state (Driver.lean showState)",
+                                    "broken_obligations": proof_problems, "seed": seed, "tier": tier})
+        lines.append("VIOLATION property=%s replay=%s no-failing-input-found" % (pid, path))
+        rc = 1
     elif proof_problems or ctx.unavailable:
         path = C.write_replay(pid, {"property": pid, "kind": "unchecked-obligation",
-                                    "reason": "the property is no longer shown to hold: " + "; ".join(proof_problems + ctx.unavailable)[:1500],
+                                    "reason": "the property is no longer shown to hold: " + "; ".join(
+                                        proof_problems + ctx.unavailable + [d["reason"] for d in ctx.state_divergences])[:1500],
                                     "broken_obligations": proof_problems, "unavailable_correspondence": ctx.unavailable,
                                     "scenario": None, "seed": seed, "tier": tier})
         lines.append("VIOLATION property=%s replay=%s no-failing-input-found" % (pid, path))
